@@ -44,11 +44,23 @@ theorem core_weaken {s : State} (c : Core none s) (h : Nat) (hv : ∀ a, s.vpnIp
     have : x = h := Option.some.inj e
     subst this; exact hv a hx
 
+/-- what `unlockedAddHostInfo(h)` may change -/
+structure AddHostFrame (s t : State) (h : Nat) : Prop where
+  objs : t.objs = s.objs
+  vpnIps : t.vpnIps = s.vpnIps
+  pidx : t.pidx = s.pidx
+  next : t.next = s.next
+  rs : ∀ x, RsLe (s.rstate x) (t.rstate x)
+  idxSub : ∀ i x, t.indexes.get i = some x → s.indexes.get i = some x ∨ x = h
+  relSub : ∀ i x, t.relays.get i = some x → s.relays.get i = some x
+  ridxKeep : ∀ r x, s.rindexes.get r = some x →
+    t.rindexes.get r = some x ∨ t.indexes.get (s.obj x).lidx ≠ some x ∨ t.rindexes.get r = some h
+
 theorem addHost_inv {s : State} {h : Nat} (c : Core none s) (cap : Cap s)
     (hfree : s.indexes.get (s.obj h).lidx = none) (hnz : (s.obj h).lidx ≠ 0)
     (hp : s.pidx.get (s.obj h).lidx = none) (hv : ∀ a, s.vpnIps.get a ≠ some h)
     (hnr : ∀ i, ((s.rstate h).byIdx.get i).isSome = false) :
-    Inv (addHost s h) ∧ AddFrame s (addHost s h) := by
+    Inv (addHost s h) ∧ AddHostFrame s (addHost s h) h := by
   obtain ⟨j, f, m, _⟩ := addLoop_inv h (s.obj h).addrs s ⟨core_weaken c h hv hnr, cap, hfree⟩ (fun a ha => ha)
   simp only [addHost]
   generalize (s.obj h).addrs.foldl (innerAdd h) s = s1 at j f m
@@ -74,8 +86,32 @@ theorem addHost_inv {s : State} {h : Nat} (c : Core none s) (cap : Cap s)
     by_cases e : (s.obj h).lidx = (s.obj x).lidx
     · simp [e] at hl'; exact absurd hl'.symm hx
     · simpa [e] using hl'
-  show Inv t ∧ AddFrame s t
-  refine ⟨⟨⟨?_, ?_, ?_, ?_, ?_, ?_, ?_, ?_, ?_, ?_, ?_, ?_, ?_, ?_⟩, ?_⟩, ⟨f.objs, f.vpnIps, f.pidx, f.next, f.rs⟩⟩
+  show Inv t ∧ AddHostFrame s t h
+  have hframe : AddHostFrame s t h := by
+    refine ⟨f.objs, f.vpnIps, f.pidx, f.next, f.rs, fun i x e => ?_, fun i x e => f.relSub i x e, fun r x e => ?_⟩
+    · have e' : (s1.indexes.set (s.obj h).lidx h).get i = some x := e
+      rw [get_set] at e'
+      by_cases c : (s.obj h).lidx = i
+      · simp only [c, ↓reduceIte, Option.some.injEq] at e'; exact Or.inr e'.symm
+      · simp only [c, ↓reduceIte] at e'; exact Or.inl (f.idxSub i x e')
+    · show (s1.rindexes.set (s.obj h).ridx h).get r = some x ∨
+        (s1.indexes.set (s.obj h).lidx h).get (s.obj x).lidx ≠ some x ∨ (s1.rindexes.set (s.obj h).ridx h).get r = some h
+      simp only [get_set]
+      by_cases cr : (s.obj h).ridx = r
+      · right; right; simp [cr]
+      · simp only [cr, ↓reduceIte]
+        rcases f.ridxKeep r x e with k | k
+        · exact Or.inl k
+        · right; left
+          by_cases c2 : (s.obj h).lidx = (s.obj x).lidx
+          · simp only [c2, ↓reduceIte, ne_eq, Option.some.injEq]
+            intro e2; subst e2
+            -- x = h would have a remote index entry before being added: impossible, h is not live in s
+            have := (c.ridx r h e).1
+            simp only [Live] at this
+            rw [hfree] at this; cases this
+          · simp only [c2, ↓reduceIte]; exact k
+  refine ⟨⟨⟨?_, ?_, ?_, ?_, ?_, ?_, ?_, ?_, ?_, ?_, ?_, ?_, ?_, ?_⟩, ?_⟩, hframe⟩
   · exact j.core.rep
   · intro a x hx
     rw [hl] at hx
@@ -150,5 +186,36 @@ theorem addHost_inv {s : State} {h : Nat} (c : Core none s) (cap : Cap s)
     rw [hto] at hr ⊢; rw [← ho] at hr ⊢
     exact j.core.vpnReady a x hx' hr
   · intro a; rw [hl]; exact j.cap a
+
+end Nebula.HostMap
+
+namespace Nebula.HostMap
+open FMap
+
+/-- what an operation may do to the index maps and to the tunnels that hold indexes; `fresh` = the tunnels it may bring
+into the main hostmap -/
+structure OpFrame (pre post : State) (fresh : List Nat) : Prop where
+  idxSub : ∀ i x, post.indexes.get i = some x → pre.indexes.get i = some x ∨ x ∈ fresh
+  objLive : ∀ x, Live pre x → post.obj x = pre.obj x
+  keysMono : ∀ x i, ((pre.rstate x).byIdx.get i).isSome = true → ((post.rstate x).byIdx.get i).isSome = true
+  objPend : ∀ i x, pre.pidx.get i = some x → (post.obj x).lidx = i ∧ (post.obj x).ready = true
+  ridxKeep : ∀ r x, pre.rindexes.get r = some x →
+    post.rindexes.get r = some x ∨ ¬ Live post x ∨ ∃ h', post.rindexes.get r = some h' ∧ h' ∈ fresh
+
+theorem OpFrame.mono {pre post : State} {f g : List Nat} (o : OpFrame pre post f) (h : ∀ x ∈ f, x ∈ g) :
+    OpFrame pre post g :=
+  ⟨fun i x e => (o.idxSub i x e).imp id (h x), o.objLive, o.keysMono, o.objPend,
+   fun r x e => (o.ridxKeep r x e).imp id (Or.imp id fun ⟨h', a, b⟩ => ⟨h', a, h h' b⟩)⟩
+
+/-- operations that leave `Indexes` / `RemoteIndexes` alone and do not touch tunnels holding an index -/
+theorem opFrame_basic {pre post : State} (c : Core none pre) (hi : post.indexes = pre.indexes)
+    (hr : post.rindexes = pre.rindexes)
+    (ho : ∀ x, (Live pre x ∨ ∃ i, pre.pidx.get i = some x) → post.obj x = pre.obj x)
+    (hk : ∀ x i, ((pre.rstate x).byIdx.get i).isSome = true → ((post.rstate x).byIdx.get i).isSome = true) :
+    OpFrame pre post [] := by
+  refine ⟨fun i x e => Or.inl (hi ▸ e), fun x hl => ho x (Or.inl hl), hk, fun i x e => ?_, fun r x e => Or.inl (by rw [hr]; exact e)⟩
+  rw [ho x (Or.inr ⟨i, e⟩)]
+  obtain ⟨p1, _, _, p4⟩ := c.pidx i x e
+  exact ⟨p1, p4⟩
 
 end Nebula.HostMap
